@@ -128,6 +128,25 @@ def r2_expand(run, F):
            "import declarations must be removed from every module before exported declarations are spliced in")
     run.ob("R2-EXPORT-FILTER", "splice uses export()", len(exp) == 1 and len(splice) == 1, F.where(b),
            "only declarations passed through export() may be spliced into the includer")
+    # every import of the module is resolved before retain(!is_import) removes them all: the resolving loop ranges over the
+    # prefix [0..k) with k = partition_point(is_import) after a sort that moves the imports to the front (or over a filter of
+    # all declarations); a count of the *leading* imports (take_while / position) silently drops an import that follows
+    # another declaration
+    from rules import origins as _or
+    fors = [n for n in walk(b["hir"]) if n.get("k") == "Match" and "ForLoop" in str(n.get("msrc"))
+            and any(hirq.short(p) == "Error::UnresolvedImport" for p, _ in hirq.constructs(n))]
+    inner = [n for n in fors if not any(m is not n and any(x is m for x in walk(n)) for m in fors)]
+    dom_calls = set()
+    for lp in inner[:1]:
+        o = _or.origins(b["hir"], lp["scrut"], b.get("params", ()))
+        dom_calls |= set(str(k[1]).split("::")[-1] for k in o if k[0] == "call")
+    sorts = [c for c in hirq.calls(b["hir"]) if c.get("k") == "MethodCall" and c.get("name") in ("sort_by_key", "sort_by", "sort_by_cached_key")
+             and any(hirq.callee(x) == "alpha::expander::is_import" for x in hirq.calls(c))]
+    whole = ("partition_point" in dom_calls and len(sorts) >= 1) or ("filter" in dom_calls and not ({"take_while", "position", "partition_point"} & dom_calls))
+    prefix_only = sorted({"take_while", "position", "skip_while", "find"} & dom_calls)
+    run.ob("R2-ALL-IMPORTS-RESOLVED", "domain of the resolving loop", bool(inner) and whole and not prefix_only, F.where(b, inner[0]) if inner else F.where(b),
+           "the loop that resolves imports must range over every import of the module (sorted to the front + partition_point, or a filter): "
+           "domain derives from %s, sorts by is_import: %d, prefix-only adaptors: %s" % (sorted(dom_calls), len(sorts), prefix_only))
     # unresolved imports -> Poison
     cons = [hirq.short(p) for p, _ in hirq.constructs(b["hir"])]
     run.ob("R2-UNRESOLVED", "poisoned", "Error::UnresolvedImport" in cons and "Error::UnresolvedImportWithHint" in cons and "Declaration::Poison" in cons,
